@@ -700,3 +700,41 @@ func le64(v uint64) []byte {
 }
 
 func bigInt(x int64) *big.Int { return big.NewInt(x) }
+
+// defaultVal is the default (zero) value of a type (mirrors Types.default_val)
+func defaultVal(t *Ty) *Val {
+	switch t.Kind {
+	case "u":
+		return &Val{Kind: "n", U: big.NewInt(0)}
+	case "bool":
+		return &Val{Kind: "b"}
+	case "bytes":
+		return &Val{Kind: "x", Bytes: make([]byte, t.N)}
+	case "root":
+		return &Val{Kind: "x", Bytes: make([]byte, 32)}
+	case "bitvec":
+		return &Val{Kind: "bits", Bits: make([]bool, t.N)}
+	case "bitlist":
+		return &Val{Kind: "bits"}
+	case "vec":
+		vs := make([]*Val, t.N)
+		for i := range vs {
+			vs[i] = defaultVal(t.Elem)
+		}
+		return &Val{Kind: "seq", Seq: vs}
+	case "list":
+		return &Val{Kind: "seq"}
+	case "cont":
+		vs := make([]*Val, len(t.Fields))
+		for i, f := range t.Fields {
+			vs[i] = defaultVal(f)
+		}
+		return &Val{Kind: "cont", Seq: vs}
+	case "union":
+		if t.None {
+			return &Val{Kind: "un", Sel: 0}
+		}
+		return &Val{Kind: "un", Sel: 0, Inner: defaultVal(t.Fields[0])}
+	}
+	panic("bad kind")
+}
